@@ -43,6 +43,13 @@ class Contract:
         self.props = opts.get("props", [])
         self.inline = opts.get("inline", False)
         self.trusted = opts.get("trusted", False)   # contract assumed, body not verified (listed as such)
+        # tier="thorough": the body is verified only by the thorough tier (VC generation too slow for the per-change check); the quick
+        # tier treats the contract as trusted and runs its bounded stand-in instead
+        self.tier = opts.get("tier")
+        import os as _os
+        if self.tier == "thorough" and _os.environ.get("VERIF_TIER", "quick") != "thorough":
+            self.trusted = True
+            self.trusted_in_quick = True
         self.scope = opts.get("scope")
         self.opts = opts
         self.requires, self.ensures, self.canaries, self.lemmas = [], [], [], []
